@@ -79,7 +79,7 @@ def gen(rng, i, tier):
         lam2 = rng.choice([F(1), F(2), F(1, 2)])
         again["lam"] = [lam2.numerator, lam2.denominator]
         calls.append(again)
-    return {"obj": G.jraw(obj), "calls": calls, "touch": rng.choice([None, None, "refresh", "copy"])}
+    return {"obj": G.jraw(obj), "calls": calls, "touch": rng.choice([None, None, "refresh", "copy", "keep", "round"])}
 
 
 def twin_ok(case):
@@ -91,14 +91,20 @@ def run_impl(case):
     import qubovert as qv
     H = qv.PCSO({k: C.num(v) for k, v in G.unjraw(case["obj"])})
     out = {"obs": [], "error": None, "checks": []}
+    by = C.Bystanders()
     for j, c in enumerate(case["calls"]):
         # maintenance between two constraints: nothing the next call relies on may be lost (only when no variable is stale,
         # because refresh / copy legitimately forget stale variables and the model run does not perform them)
         if j and case.get("touch") and H.variables == {i for k in H for i in k}:
             if case["touch"] == "refresh":
                 H.refresh()
-            else:
+            elif case["touch"] == "round":
+                H = round(H, 12)             # exact on the coefficients generated; constraints and ancillas stay
+            elif case["touch"] == "copy":
+                by.add(H, "the model a copy was taken from (after %d constraints)" % j)
                 H = H.copy()
+            else:                            # "keep": the history goes on with H, a copy of this moment stays behind
+                by.add(H.copy(), "a copy taken after %d constraints" % j)
         P = {k: C.numf(v, 'q') for k, v in G.unjraw(c["P"])}
         snapP = C.snapshot(P)
         lam = C.num(F(*c["lam"]))
@@ -125,6 +131,7 @@ def run_impl(case):
                 w = "always"
         out["obs"].append(c02.observe(H, w))
         out["checks"].extend(check(H, before, anc_before, c, w))
+    out["checks"].extend(by.changed())
     return out
 
 
